@@ -20,8 +20,6 @@ open Lc3V
 theorem rangesOverlap_comm (a0 a1 b0 b1 : Nat) : rangesOverlap a0 a1 b0 b1 = rangesOverlap b0 b1 a0 a1 := by
   unfold rangesOverlap; rw [Bool.and_comm]
 
-abbrev insAll (a b : Blocks) : Blocks := b.foldl (fun m e => insertSortedBy e.1 e.2 m) a
-
 def linkFold (a b : Blocks) (d : Bool) : Blocks × Bool :=
   b.foldl (fun (acc : Blocks × Bool) e => ((insertBlockRaw e.1 e.2 acc.1).1, acc.2 || (insertBlockRaw e.1 e.2 acc.1).2)) (a, d)
 
@@ -29,41 +27,6 @@ theorem linkFold_fst (b : Blocks) : ∀ (a : Blocks) (d : Bool), (linkFold a b d
   induction b with
   | nil => intro a d; rfl
   | cons y ys ih => intro a d; simp only [linkFold, insAll, List.foldl_cons, insertBlockRaw] at *; exact ih _ _
-
-theorem sorted_insAll (b : Blocks) : ∀ a : Blocks, SortedKeys a → SortedKeys (insAll a b) := by
-  induction b with
-  | nil => intro a h; exact h
-  | cons y ys ih => intro a h; simp only [insAll, List.foldl_cons]; exact ih _ (sorted_insertSortedBy _ _ _ h)
-
-def CommonKey (a b : Blocks) : Prop := ∃ x ∈ a, ∃ y ∈ b, x.1 = y.1
-
-/-- without a common start the result holds exactly the blocks of both files -/
-theorem mem_insAll (b : Blocks) : ∀ a : Blocks, SortedKeys a → SortedKeys b → ¬ CommonKey a b →
-    ∀ x, x ∈ insAll a b ↔ x ∈ a ∨ x ∈ b := by
-  induction b with
-  | nil => intro a _ _ _ x; simp [insAll]
-  | cons y ys ih =>
-    intro a ha hb hc x
-    simp only [insAll, List.foldl_cons]
-    have hya : ∀ z ∈ a, z.1 ≠ y.1 := fun z hz e => hc ⟨z, hz, y, by simp, e⟩
-    have hc' : ¬ CommonKey (insertSortedBy y.1 y.2 a) ys := by
-      rintro ⟨z, hz, w, hw, e⟩
-      rcases (mem_insertSortedBy y.1 y.2 a ha z).mp hz with rfl | ⟨hz', _⟩
-      · have := hb.head_lt w hw; simp only at e; omega
-      · exact hc ⟨z, hz', w, List.mem_cons_of_mem _ hw, e⟩
-    have := ih (insertSortedBy y.1 y.2 a) (sorted_insertSortedBy _ _ _ ha) hb.tail hc' x
-    show x ∈ insAll (insertSortedBy y.1 y.2 a) ys ↔ _
-    rw [this, mem_insertSortedBy y.1 y.2 a ha x]
-    constructor
-    · rintro ((h | ⟨h, _⟩) | h)
-      · right; rw [h]; simp
-      · exact Or.inl h
-      · right; exact List.mem_cons_of_mem _ h
-    · rintro (h | h)
-      · exact Or.inl (Or.inr ⟨h, hya x h⟩)
-      · rcases List.mem_cons.mp h with rfl | h'
-        · exact Or.inl (Or.inl rfl)
-        · exact Or.inr h'
 
 theorem any_key_iff (m : Blocks) (k : Nat) : (m.any (fun e => e.1 == k)) = true ↔ ∃ x ∈ m, x.1 = k := by
   simp [List.any_eq_true]
@@ -137,7 +100,7 @@ theorem linkBlocks_sorted (a b r : Blocks) (ha : SortedKeys a) (h : linkBlocks a
     · cases h; rw [linkFold_fst]; exact sorted_insAll b a ha
 
 def obligations : List Lean.Name :=
-  [``rangesOverlap_comm, ``mem_insAll, ``linkFold_dup, ``linkBlocks_comm, ``linkBlocks_sorted, ``C21.link_resolves, ``C21.patch_sets_word,
+  [``rangesOverlap_comm, ``Lc3V.mem_insAll, ``linkFold_dup, ``linkBlocks_comm, ``linkBlocks_sorted, ``C21.link_resolves, ``C21.patch_sets_word,
    ``Lc3V.mem_insertSortedBy, ``Lc3V.sorted_insertSortedBy, ``Lc3V.sorted_ext]
 
 end Lc3V.C20
